@@ -237,6 +237,19 @@ def load_case(rng: Rng, max_ops: int) -> dict:
             d["down_cd"] = rng.choice([0, 1, 2])
             d["resetting"] = rng.chance(1, 3)
         decl.append(d)
+    defaults = None
+    if rng.chance(1, 2):   # a `defaults:` section; a node that gives no duration of its own takes it from there, else 3
+        defaults = {}
+        if rng.chance(3, 4):
+            defaults["up"] = rng.choice([0, 1, 2, 4])
+        if rng.chance(3, 4):
+            defaults["down"] = rng.choice([0, 1, 2, 4])
+        defaults["quoted"] = rng.chance(1, 3)
+    for d in decl:
+        if rng.chance(1, 3):
+            d["up"] = None
+        if rng.chance(1, 3):
+            d["down"] = None
     ops = []
     if rng.chance(2, 3):
         ops.append({"op": "setup"})
@@ -259,7 +272,10 @@ def load_case(rng: Rng, max_ops: int) -> dict:
             ops.append(api_op(rng, node, ALL_CLASSES[node]))
         else:
             ops.append({"op": "req", "node": node, "key": "os", "path": ["scan"]})
-    return {"kind": "load", "nodes": decl, "ops": ops}
+    case = {"kind": "load", "nodes": decl, "ops": ops}
+    if defaults is not None:
+        case["defaults"] = defaults
+    return case
 
 
 def load_cfg(case: dict) -> dict:
@@ -269,7 +285,11 @@ def load_cfg(case: dict) -> dict:
     host_ip = {"host-node": "192.168.1.5", "computer": "192.168.1.2", "printer": "192.168.1.4", "server": "192.168.1.3"}
     for i, d in enumerate(case["nodes"]):
         c = d["cls"]
-        n = {"hostname": f"l{i}", "type": c, "start_up_duration": d["up"], "shut_down_duration": d["down"]}
+        n = {"hostname": f"l{i}", "type": c}
+        if d.get("up") is not None:
+            n["start_up_duration"] = d["up"]
+        if d.get("down") is not None:
+            n["shut_down_duration"] = d["down"]
         if "init" in d:
             n["operating_state"] = d["init"]
         if "up_cd" in d:
@@ -297,8 +317,17 @@ def load_cfg(case: dict) -> dict:
     L = lambda a, pa, b, pb: {"endpoint_a_hostname": f"l{idx[a]}", "endpoint_a_port": pa, "endpoint_b_hostname": f"l{idx[b]}", "endpoint_b_port": pb}  # noqa: E731
     links = [L("host-node", 1, "switch", 1), L("computer", 1, "switch", 2), L("printer", 1, "switch", 3), L("server", 1, "switch", 4),
              L("switch", 5, "router", 1), L("router", 2, "firewall", 1), L("firewall", 2, "wireless-router", 2)]
-    return {"io_settings": dict(QUIET_IO), "game": {"max_episode_length": 64, "ports": [], "protocols": []}, "agents": [],
-            "simulation": {"network": {"nodes": nodes, "links": links}}}
+    cfg = {"io_settings": dict(QUIET_IO), "game": {"max_episode_length": 64, "ports": [], "protocols": []}, "agents": [],
+           "simulation": {"network": {"nodes": nodes, "links": links}}}
+    dflt = case.get("defaults")
+    if dflt is not None:
+        q = (lambda v: str(v)) if dflt.get("quoted") else (lambda v: v)
+        cfg["defaults"] = {}
+        if "up" in dflt:
+            cfg["defaults"]["node_start_up_duration"] = q(dflt["up"])
+        if "down" in dflt:
+            cfg["defaults"]["node_shut_down_duration"] = q(dflt["down"])
+    return cfg
 
 
 # ------------------------------------------------------------------------------------------------ generation
@@ -696,11 +725,14 @@ def node_line(spec: dict, n) -> str:
             f"{n.node_scan_countdown} {n.red_scan_countdown} {c.node_scan_duration}")
 
 
-def load_line(decl: dict, n, wired: List[bool]) -> str:
+def load_line(decl: dict, n, wired: List[bool], dflt: Optional[dict] = None) -> str:
     """the `load ...` line: what the FILE declares (plus the inventory the file implies: interface kinds in port order,
     which ports the links wire, how many services / applications get installed); the model's loader computes the node"""
     kinds = "".join(t[2] for t in _nic_tokens(n))
-    return (f"load {decl['cls']} {decl.get('init', '-')} {decl['up']} {decl['down']} {decl.get('up_cd', 0)} {decl.get('down_cd', 0)} "
+    tok = lambda v: "-" if v is None else str(v)  # noqa: E731
+    dflt = dflt or {}
+    return (f"load {decl['cls']} {decl.get('init', '-')} {tok(decl.get('up'))} {tok(decl.get('down'))} {tok(dflt.get('up'))} {tok(dflt.get('down'))} "
+            f"{decl.get('up_cd', 0)} {decl.get('down_cd', 0)} "
             f"{'1' if decl.get('resetting') else '0'} {kinds} {''.join('1' if w else '0' for w in wired)} "
             f"{len(n.services)} {len(n.applications)} {n.config.node_scan_duration}")
 
@@ -747,7 +779,7 @@ def run_case(case: dict) -> Tuple[List[str], List[str], List[str], Dict[str, int
                 wired_ports[int(l["endpoint_b_hostname"][1:])].add(l["endpoint_b_port"])
             for i, (decl, n) in enumerate(zip(case["nodes"], nodes)):
                 wired = [port in wired_ports[i] for port in sorted(n.network_interface)]
-                lines.append(load_line(decl, n, wired))
+                lines.append(load_line(decl, n, wired, case.get("defaults")))
                 impl.append(f"ok {i} {snapshot(n)}")
         else:
             for i, (spec, n) in enumerate(zip(case["nodes"], nodes)):
